@@ -121,9 +121,9 @@ func c06TypeArgFollowers(p *Prog) *RuleResult {
 //
 // A constant TypeScript enum member travels between modules as js_ast.TSEnumValue{String, Number}
 // where `String == nil` means "numeric member" — the empty string is a legitimate string value
-// (`None = ''`) and is represented by a non-nil, empty slice. Every decision between the two
+// (`None = ”`) and is represented by a non-nil, empty slice. Every decision between the two
 // alternatives must therefore be a nil comparison of the String field; deciding by its length
-// turns `''` into the number 0 wherever the value is inlined. Rule: no branch condition in the
+// turns `”` into the number 0 wherever the value is inlined. Rule: no branch condition in the
 // module is computed from len() of a TSEnumValue's String field, and the discriminating nil tests
 // that exist today are still there.
 func c06EnumDiscriminant(p *Prog) *RuleResult {
